@@ -48,6 +48,7 @@ CONSTANTS Names,        \* metric names
           InvalidSel,   \* which invalid operations are in the domain (see InvalidOps)
           MaxBatches, MaxOps,
           MinOps,       \* smallest batch (exhaustive case generation uses 1)
+          SymHooks,     \* TRUE: the first batch comes from one fixed hook (hooks are interchangeable: halves the histories)
           MaxTotalOps,  \* bound on the number of operations in a history
           MaxInvalid,   \* at most this many rejected batches per history
           AvoidOpen,    \* TRUE: histories stay clear of the input classes of the open findings F23/F24
@@ -74,6 +75,7 @@ View == IF AvoidOpen \/ AsIs # {}
 \* label sets for the cfgs (a cfg cannot write tuples): two shapes / four sets over three shapes
 LS2 == {{}, {<<"a", "x">>}}
 LS3 == {{}, {<<"a", "x">>}, {<<"a", "y">>}}
+LS3s == {{}, {<<"a", "x">>}, {<<"a", "x">>, <<"b", "y">>}}
 LS4 == {{}, {<<"a", "x">>}, {<<"a", "y">>}, {<<"a", "x">>, <<"b", "y">>}}
 InvFew == {"bogus_u", "novalue_setg", "observe_g"}
 InvAll == {"noaction_u", "noaction_g", "bogus_u", "bogus_g", "expire_u", "observe_g", "novalue_add", "novalue_setg",
@@ -260,7 +262,8 @@ Init ==
   /\ last = [hook |-> "", ops |-> <<>>, err |-> FALSE] /\ h = <<>>
   /\ pending = <<>> /\ hook = ""
 
-Next == nb < MaxBatches /\ \E k \in Hooks : SendAny(k) /\ UNCHANGED <<pending, hook>>
+H1 == CHOOSE k \in Hooks : TRUE
+Next == nb < MaxBatches /\ \E k \in (IF SymHooks /\ nb = 0 THEN {H1} ELSE Hooks) : SendAny(k) /\ UNCHANGED <<pending, hook>>
 Spec == Init /\ [][Next]_vars
 
 (* ---------- behaviour generation (simulation): a batch is composed operation by operation ---------- *)
@@ -280,7 +283,7 @@ SimNext ==
   \/ \E op \in S(UOps("observe")) : AddOp(op)
   \/ \E op \in S(GOps("add")) : AddOp(op)
   \/ \E op \in S(GOps("set")) : AddOp(op)
-  \/ \E op \in S(GOps("add") \cup GOps("set")) : AddOp(op)
+  \/ \E op \in S(GOps("add") \cup GOps("set")) : AddOp(op)      \* (a second draw: grouped operations weigh 3 of 9)
   \/ \E op \in S(ExpireOps) : AddOp(op)
   \/ \E op \in S(InvalidOps) : AddOp(op)
   \/ SimSend
